@@ -28,6 +28,7 @@ structure Params where
   k : Nat := 0                 -- a mode / position
   dims : List Nat := []        -- a list of modes (e.g. the modes that remain)
   flag : String := ""          -- sub-case selector (documented per entry)
+  kinds : List Nat := []       -- kinds of the parts of a sum tensor, in order (`Heap/Table2.lean`)
   deriving Repr, Inhabited
 
 /-- What the property permits. -/
@@ -679,7 +680,9 @@ def pf (_ : Params) : Spec := .pureFresh
 /-- receiver operands `0 .. n` of a Kruskal tensor -/
 def krecv (p : Params) : Spec := .inPlace (List.range (p.n + 1))
 
-def table : List Entry := [
+/-- the entries of part 3 (part 4, `Heap/Table2.lean`, adds the matricized, Tucker, sum and remaining
+Kruskal entries; `table` is the concatenation) -/
+def table1 : List Entry := [
   ⟨"tensor", "__init__", noCopyIf [0], tensor_init, atLeast 1⟩,
   ⟨"tensor", "copy", pf, tensor_copy, noPre⟩,
   ⟨"tensor", "double", pf, tensor_double, noPre⟩,
@@ -717,11 +720,9 @@ def table : List Entry := [
   ⟨"ttensor", "__init__", fun p => noCopyIf (List.range (p.k + p.n)) p, ttensor_init, (fun p b => decide (p.k + p.n ≤ b))⟩,
   ⟨"any", "copy_all", pf, copy_all, noPre⟩,
   ⟨"any", "alias_all", fun p => .noCopy (List.range p.m), alias_all, (fun p b => decide (p.m ≤ b))⟩,
-  ⟨"tenmat", "__init__", noCopyIf [0], tenmat_init, atLeast 1⟩,
   ⟨"tenmat", "to_tensor", noCopyIf [0], tenmat_to_tensor, atLeast 1⟩,
   ⟨"tenmat", "__getitem__", pf, tenmat_getitem, noPre⟩,
   ⟨"tenmat", "__setitem__", fun _ => .inPlace [0, 1, 2], tenmat_setitem, atLeast 3⟩,
-  ⟨"sptenmat", "__init__", noCopyIf [0, 1], sptenmat_init, atLeast 2⟩,
   ⟨"sptenmat", "double", pf, sptenmat_double, noPre⟩,
   ⟨"sptenmat", "__setitem__", fun _ => .inPlace [0, 1, 2, 3], sptenmat_setitem, atLeast 4⟩,
   ⟨"utils", "tt_ind2sub", pf, tt_ind2sub_fixed, noPre⟩,
